@@ -114,7 +114,7 @@ def pl_each(l, pk, pv, maxlen):
     return z3.Or(PairList.is_pnil(l), z3.And(PairList.is_pcons(l), pk(PairList.pkey(l)), pv(PairList.pval(l)), pl_each(PairList.ptail(l), pk, pv, maxlen - 1)))
 
 
-def conforms(t: dict, d, depth: int, width: int, defs=None):
+def conforms(t: dict, d, depth: int, width: int, defs=None, list_records=False):
     """z3 Bool: Data term d is the representation of some value of the Aiken type described by TYPEDESC t
     (values nested deeper than `depth` / lists longer than `width` are excluded: stated bound)"""
     defs = defs if defs is not None else {}
@@ -134,15 +134,20 @@ def conforms(t: dict, d, depth: int, width: int, defs=None):
     if k == "list":
         e = t["elem"]
         if e["k"] == "pair":
-            return z3.And(Data.is_Map(d), pl_each(Data.mentries(d), lambda x: conforms(e["fst"], x, depth - 1, width, defs),
-                                                   lambda x: conforms(e["snd"], x, depth - 1, width, defs), width))
-        return z3.And(Data.is_List(d), dl_each(Data.litems(d), lambda x: conforms(e, x, depth - 1, width, defs), width))
+            return z3.And(Data.is_Map(d), pl_each(Data.mentries(d), lambda x: conforms(e["fst"], x, depth - 1, width, defs, list_records),
+                                                   lambda x: conforms(e["snd"], x, depth - 1, width, defs, list_records), width))
+        return z3.And(Data.is_List(d), dl_each(Data.litems(d), lambda x: conforms(e, x, depth - 1, width, defs, list_records), width))
     if k == "tuple":
-        return z3.And(Data.is_List(d), dl_of_len_exact(Data.litems(d), [(lambda x, tt=tt: conforms(tt, x, depth - 1, width, defs)) for tt in t["elems"]]))
+        return z3.And(Data.is_List(d), dl_of_len_exact(Data.litems(d), [(lambda x, tt=tt: conforms(tt, x, depth - 1, width, defs, list_records)) for tt in t["elems"]]))
     if k == "pair":
-        return z3.And(Data.is_List(d), dl_of_len_exact(Data.litems(d), [lambda x: conforms(t["fst"], x, depth - 1, width, defs),
-                                                                       lambda x: conforms(t["snd"], x, depth - 1, width, defs)]))
+        return z3.And(Data.is_List(d), dl_of_len_exact(Data.litems(d), [lambda x: conforms(t["fst"], x, depth - 1, width, defs, list_records),
+                                                                       lambda x: conforms(t["snd"], x, depth - 1, width, defs, list_records)]))
     if k == "adt":
+        if any(str(x).startswith("list") for x in t.get("decorators", [])) and list_records and len(t["constructors"]) == 1 and not t.get("transparent"):
+            # @list record: the Data form is the bare list of its fields (used by C12's `inhabits`; such values are not passed as
+            # arguments by the drivers)
+            c = t["constructors"][0]
+            return z3.And(Data.is_List(d), dl_of_len_exact(Data.litems(d), [(lambda x, ft=f["type"]: conforms(ft, x, depth - 1, width, defs, list_records)) for f in c["fields"]]))
         if t.get("transparent") or any(str(x).startswith("list") for x in t.get("decorators", [])):
             raise NotRepresentable("transparent opaque / @list type (passed natively)")
         name = f"{t.get('module')}.{t.get('name')}<{json.dumps(t.get('args'), sort_keys=True)}>"
@@ -158,7 +163,7 @@ def conforms(t: dict, d, depth: int, width: int, defs=None):
                 if m:
                     idx = int(m.group(1))
             alts.append(z3.And(Data.ctag(d) == idx,
-                               dl_of_len_exact(Data.cfields(d), [(lambda x, ft=f["type"]: conforms(ft, x, depth - 1, width, defs)) for f in c["fields"]])))
+                               dl_of_len_exact(Data.cfields(d), [(lambda x, ft=f["type"]: conforms(ft, x, depth - 1, width, defs, list_records)) for f in c["fields"]])))
         return z3.And(Data.is_Constr(d), z3.Or(*alts) if alts else z3.BoolVal(False))
     if k == "ref":
         tt = defs.get(t["name"])
@@ -168,7 +173,7 @@ def conforms(t: dict, d, depth: int, width: int, defs=None):
                     tt = vv
             if tt is None:
                 raise NotRepresentable(f"unresolved type reference {t['name']}")
-        return conforms(tt, d, depth, width, defs)
+        return conforms(tt, d, depth, width, defs, list_records)
     raise NotRepresentable(f"type kind {k}")
 
 
